@@ -52,6 +52,15 @@ class World:
         mid = self.next_id
         self.next_id += 1
 
+        def keeps_self(fn):
+            # a decorator whose wrapper keeps `self` explicit; functools.wraps renames the function, not the code object
+            import functools
+
+            @functools.wraps(fn)
+            def wrapper(self, *a, **kw):
+                return fn(self, *a, **kw)
+            return wrapper
+
         class Mgr:
             def __enter__(s):
                 w.log.append(("enter_start", mid))
@@ -60,13 +69,24 @@ class World:
                 w.log.append(("entered", mid))
                 return [s, 1, 2]          # iterable, so that unpacking targets work
 
-            def __exit__(s, et, ev, tb):
+            def close(s, et, ev, tb):
                 w.log.append(("exit_start", mid))
                 if probes:
                     w.observer(w, f"in __exit__ of {mid}")
                 swallow = et is not None and issubclass(et, Boom) and w.ch() == 1
                 w.log.append(("exit_end", mid))
                 return swallow
+
+            # the exit method goes by its own name, by an alias, or through a decorator: one in three each
+            __exit__ = close if mid % 3 == 1 else keeps_self(close) if mid % 3 == 2 else (lambda s, et, ev, tb: Mgr.close(s, et, ev, tb))
+            if mid % 3 == 0:
+                def __exit__(s, et, ev, tb):      # noqa: F811  (the plain form)
+                    w.log.append(("exit_start", mid))
+                    if probes:
+                        w.observer(w, f"in __exit__ of {mid}")
+                    swallow = et is not None and issubclass(et, Boom) and w.ch() == 1
+                    w.log.append(("exit_end", mid))
+                    return swallow
 
             def __repr__(s):
                 return f"<M{mid}>"
@@ -90,7 +110,7 @@ class World:
                 w.log.append(("entered", mid))
                 return [s, 1, 2]
 
-            async def __aexit__(s, et, ev, tb):
+            async def aclose(s, et, ev, tb):
                 w.log.append(("exit_start", mid))
                 if probes:
                     w.observer(w, f"in __aexit__ of {mid}")
@@ -99,6 +119,44 @@ class World:
                 swallow = et is not None and issubclass(et, Boom) and w.ch() == 1
                 w.log.append(("exit_end", mid))
                 return swallow
+
+            if mid % 4 == 1:
+                __aexit__ = aclose                     # an alias: the code object is named aclose
+            elif mid % 4 == 2:
+                def _deco(fn):
+                    import functools
+
+                    @functools.wraps(fn)
+                    def wrapper(self, *a, **kw):        # an ordinary function returning the coroutine
+                        return fn(self, *a, **kw)
+                    return wrapper
+                __aexit__ = _deco(aclose)
+            elif mid % 4 == 3:
+                def __aexit__(s, et, ev, tb):
+                    # a plain function that does some work (here: is probed) and then delegates to a coroutine method
+                    w.log.append(("exit_start", mid))
+                    if probes:
+                        w.observer(w, f"in __aexit__ (call) of {mid}")
+                    return s.aclose_late(et, ev, tb)
+
+                async def aclose_late(s, et, ev, tb):
+                    if probes:
+                        w.observer(w, f"in __aexit__ of {mid}")
+                    if suspend and w.ch() == 1:
+                        await trap()
+                    swallow = et is not None and issubclass(et, Boom) and w.ch() == 1
+                    w.log.append(("exit_end", mid))
+                    return swallow
+            else:
+                async def __aexit__(s, et, ev, tb):
+                    w.log.append(("exit_start", mid))
+                    if probes:
+                        w.observer(w, f"in __aexit__ of {mid}")
+                    if suspend and w.ch() == 1:
+                        await trap()
+                    swallow = et is not None and issubclass(et, Boom) and w.ch() == 1
+                    w.log.append(("exit_end", mid))
+                    return swallow
 
             def __repr__(s):
                 return f"<AM{mid}>"
@@ -232,6 +290,17 @@ class World:
         self.mgrs[mid] = m
         return m
 
+    def T(self, target, mgr):
+        """Record the text of the `as` target (None if there is none) the generated source gives this manager."""
+        if not hasattr(self, "target_of"):
+            self.target_of = {}
+        self.target_of[id(mgr)] = target
+        return mgr
+
+    def nn(self):
+        """None or 1, by choice (for `is None` / `is not None` tests: POP_JUMP_IF_NONE and friends)."""
+        return None if self.ch() == 1 else 1
+
     def probe(self):
         self.observer(self, "probe in body")
 
@@ -324,7 +393,7 @@ class Gen:
                 is_async = self.kind in ("coro", "agen") and rng.random() < 0.4
                 ctor = ("W.AM(%s)" if is_async else "W.M(%s)") % ("True" if self.probes else "")
                 t = rng.choice(TARGETS)
-                head = i + ("async with " if is_async else "with ") + ctor + (f" as {t}" if t else "") + ":"
+                head = i + ("async with " if is_async else "with ") + f"W.T({t!r}, {ctor})" + (f" as {t}" if t else "") + ":"
                 inner = self.susp(i + "    ") if rng.random() < 0.4 else [i + "    pad = 3"]
                 return [head] + inner + [i + "    " + self.terminator()]
             return [i + self.terminator()]
@@ -332,7 +401,11 @@ class Gen:
         first = self.susp(i2) if rng.random() < 0.5 else [i2 + "pad = 4"]
         shape = rng.choice(["ifelse", "match", "tryexcept", "ifelse"])
         if shape == "ifelse":
-            return [ind + "if W.ch():"] + first + [ind + "else:"] + leaving(i2)
+            cond = rng.choice(["if W.ch():", "if W.ch():", "if W.nn() is None:", "if W.nn() is not None:"])
+            if rng.random() < 0.3:
+                # `if c: <leave>` with nothing after it: the not-taken jump lands on the exit sequence itself
+                return [ind + cond] + leaving(i2)
+            return [ind + cond] + first + [ind + "else:"] + leaving(i2)
         if shape == "match":
             i3 = i2 + "    "
             f3 = [("    " + l) for l in first]
@@ -356,6 +429,10 @@ class Gen:
                 return [ind + ("if W.ch(): return 3" if self.kind != "agen" else "if W.ch(): return")]
             if q < 0.70:
                 return [ind + "if W.ch(): return W.f()"] if self.kind not in ("agen",) else [ind + "if W.ch(): return"]
+            if q < 0.74:
+                return [ind + rng.choice(["if W.nn() is None: ", "if W.nn() is not None: "]) +
+                        rng.choice(["raise Boom()", "pad = 5"] + (["break", "continue"] if self.in_loop else []) +
+                                   (["return"] if True else []))]
             if q < 0.80:
                 return [ind + "if W.ch(): raise Boom()"]
             if q < 0.88 and self.in_loop:
@@ -373,7 +450,7 @@ class Gen:
                 ctor = ("W.AM(%s)" if is_async else "W.M(%s)") % ("True" if self.probes else "")
                 if self.odd and rng.random() < 0.35:
                     ctor = (rng.choice(["W.ACM(%s)"]) if is_async else rng.choice(["W.SM(%s)", "W.CM(%s)", "W.ES(%s)", "W.DM(%s)"])) % ("True" if self.probes else "")
-                items.append(ctor + (f" as {t}" if t else ""))
+                items.append(f"W.T({t!r}, {ctor})" + (f" as {t}" if t else ""))
             head = ind + ("async with " if is_async else "with ") + ", ".join(items) + ":"
             body = self.block(depth - 1, ind + "    ")
             if rng.random() < 0.3 and self.budget > 0:
@@ -511,3 +588,72 @@ def table_expected(facts: dict, points: List[Tuple[int, bool, Any, Optional[int]
         bl = "[" + ",".join(f"{h}/{l}" for h, l in blocks) + "]"
         pts.append(f"{lasti}:{bl}:{depth}" if running else f"{lasti}:{bl}")
     return head + " | " + " ".join(pts)
+
+
+# ---------------------------------------------------------------------------------------------
+# a small corpus of layouts that were hard at some point (each runs under several choice lists, through the same oracles)
+# ---------------------------------------------------------------------------------------------
+
+def _c(kind, body):
+    head = {"gen": "def prog(W, ns, d):", "coro": "async def prog(W, ns, d):", "agen": "async def prog(W, ns, d):",
+            "sync": "def prog(W, ns, d):"}[kind]
+    return kind, head + "\n    x = y = p = q = pad = None\n" + body
+
+
+CORPUS = [
+    # a with nested in a loop nested in another with, body ending in a conditional continue (inner exits by falling off)
+    _c("gen", """    with W.T('x', W.M(True)) as x:
+        for _i in range(2):
+            with W.T('y', W.M(True)) as y:
+                yield 1
+                if W.ch(): continue
+        yield 1
+"""),
+    _c("sync", """    with W.T('x', W.M(True)) as x, W.T(None, W.M(True)):
+        for _i in range(2):
+            with W.T('y', W.M(True)) as y:
+                W.probe()
+                if W.ch(): continue
+"""),
+    _c("coro", """    async with W.T('x', W.AM(True)) as x:
+        for _i in range(2):
+            async with W.T('y', W.AM(True)) as y:
+                await TRAP()
+                if W.nn() is None: continue
+        await TRAP()
+"""),
+    # body ending in try/except whose clauses all leave
+    _c("coro", """    async with W.T(None, W.AM(True)):
+        try:
+            await TRAP()
+            if W.ch(): raise Boom()
+        except Boom:
+            return 3
+    await TRAP()
+"""),
+    # last branch is a nested with ending in raise
+    _c("coro", """    async with W.T('x', W.AM(True)) as x:
+        if W.ch():
+            await TRAP()
+        else:
+            with W.T('y', W.M(True)) as y:
+                raise Boom()
+    await TRAP()
+"""),
+    # an item without target while some local holds None, exited through every route
+    _c("gen", """    result = None
+    for _i in range(2):
+        with W.T(None, W.M(True)):
+            yield 1
+            if W.ch(): break
+            if W.ch(): continue
+            if W.ch(): return 3
+    yield 2
+"""),
+    _c("agen", """    last = None
+    async with W.T(None, W.AM(True)), W.T('p', W.AM(True)) as p:
+        yield 1
+        if W.nn() is not None: return
+    yield 2
+"""),
+]
